@@ -18,6 +18,7 @@ import (
 	"bytes"
 	"encoding/base64"
 	"encoding/binary"
+	"errors"
 	"io"
 	"net"
 	"net/netip"
@@ -587,6 +588,10 @@ type RDPCorrInfo struct {
 }
 
 func (i *RDPCorrInfo) FromBytes(src []byte) error {
+	// binary.Read would silently ignore any trailing bytes
+	if len(src) != int(RDPCorrInfoBytesTotal) {
+		return ErrIncorrectSourceLength
+	}
 	return binary.Read(bytes.NewBuffer(src), RDPCorrInfoBytesOrder, i)
 }
 
@@ -604,6 +609,10 @@ type RDPNegReq struct {
 }
 
 func (r *RDPNegReq) FromBytes(src []byte) error {
+	// binary.Read would silently ignore any trailing bytes
+	if len(src) != int(RDPNegReqBytesTotal) {
+		return ErrIncorrectSourceLength
+	}
 	return binary.Read(bytes.NewBuffer(src), RDPNegReqBytesOrder, r)
 }
 
@@ -693,6 +702,10 @@ type TPKTHeader struct {
 }
 
 func (h *TPKTHeader) FromBytes(src []byte) error {
+	// binary.Read would silently ignore any trailing bytes
+	if len(src) != int(TPKTHeaderBytesTotal) {
+		return ErrIncorrectSourceLength
+	}
 	return binary.Read(bytes.NewBuffer(src), TPKTHeaderBytesOrder, h)
 }
 
@@ -711,6 +724,10 @@ type X224Crq struct {
 }
 
 func (x *X224Crq) FromBytes(src []byte) error {
+	// binary.Read would silently ignore any trailing bytes
+	if len(src) != int(X224CrqBytesTotal) {
+		return ErrIncorrectSourceLength
+	}
 	return binary.Read(bytes.NewBuffer(src), X224CrqBytesOrder, x)
 }
 
@@ -719,6 +736,10 @@ func (x *X224Crq) ToBytes() ([]byte, error) {
 	err := binary.Write(dst, X224CrqBytesOrder, x)
 	return dst.Bytes(), err
 }
+
+// ErrIncorrectSourceLength is returned by FromBytes of the fixed-size structures
+// when the source is not exactly as long as the structure is on the wire.
+var ErrIncorrectSourceLength = errors.New("incorrect source length")
 
 // Interface guards
 var (
